@@ -25,6 +25,7 @@
 #include "cmd_itoa.h"
 #include "cmd_ftoa.h"
 #include "cmd_memcmp.h"
+#include "cmd_number.h"
 #include "cmd_parse.h"
 #include "cmd_pool.h"
 #include "cmd_quote.h"
@@ -45,6 +46,8 @@ int main(int argc, char** argv) {
       cmd_itoa(tok, out);
     } else if (tok[0] == "f64toa") {
       cmd_ftoa(tok, out);
+    } else if (tok[0] == "atof" || tok[0].compare(0, 5, "prim-") == 0) {
+      vnum::cmd(tok, out);
     } else if (tok[0] == "memcmp") {
       cmd_memcmp(tok, out);
     } else if (tok[0] == "quote") {
